@@ -221,6 +221,18 @@ struct ConfigWorld : World {
 					std::string a; for (auto &e : seen) { a += "[" + (e.size() > 8 ? std::to_string(e.size()) : e) + "]"; }
 					fail("walk-differs", "iterating '%s' visits %zu elements %s, the string has %zu components", short_path(rel).c_str(), seen.size(), a.c_str(), rel.size());
 				}
+				// reduce the path to its last element: what remains iterates as exactly that component
+				if (!degenerate && !rel.empty()) {
+					mpt::path lp; lp.sep = sep; lp.assign = 0;
+					{ Sut s; mpt_path_set(&lp, (const char *) pb.p, -1); }
+					int ll; { Sut s; ll = mpt_path_last(&lp); }
+					const std::string &last = rel.back();
+					if (ll != (int) last.size()) fail("walk-differs", "mpt_path_last on '%s' reports a last element of %d characters, the string ends with one of %zu", short_path(rel).c_str(), ll, last.size());
+					PathV seenl; int gl = 0;
+					while (true) { const char *base = lp.base + lp.off; int l; { Sut s; l = mpt_path_next(&lp); } if (l < 0) break; seenl.emplace_back(base, (size_t) l); if (++gl > 16) break; }
+					if (seenl.size() != 1 || seenl[0] != last) fail("walk-differs", "after mpt_path_last on '%s' the path iterates as %zu element(s)%s, expected the last component of %zu characters alone", short_path(rel).c_str(), seenl.size(), seenl.size() == 1 ? (" of " + std::to_string(seenl[0].size()) + " characters").c_str() : "", last.size());
+					st.hit("probe:path_last");
+				}
 				// rebuild element by element and compare
 				if (!degenerate) {
 					mpt::path bp; bp.sep = sep; bp.assign = 0; bool ok = true;
